@@ -230,12 +230,12 @@ impl Lsp {
     /// closed without saving. Afterwards the file on disk is the document again, and nothing of the draft may
     /// show in any answer.
     pub fn disturb(&mut self, uri: &str, disk_text: &str) -> Result<(), LspError> {
-        let draft = format!("// draft: not saved\n/* two more\n   lines é😉 */ let zzdraft = nowhere ;\n{disk_text}");
+        // a valid draft first (the server resolves it and computes locations inside it) ...
+        let draft = format!("// draft: not saved\n/* two more\n   lines é😉 */ let zzdraft = {{}} ;\n{disk_text}");
         self.did_open(uri, &draft)?;
         let doc = ClientDoc::new(&draft);
-        // a few requests in the draft: the first identifier after each of the first `let`s
         let mut from = 0;
-        for _ in 0..3 {
+        for _ in 0..4 {
             let Some(i) = draft[from..].find("let ") else { break };
             let b = from + i + 4;
             let p = doc.position_of_byte(&draft, b);
@@ -243,6 +243,10 @@ impl Lsp {
             self.position_request("textDocument/definition", uri, p[0], p[1])?;
             from = b;
         }
+        // ... then one with an error and yet another layout (the server publishes a diagnostic inside it)
+        let broken = format!("// draft\n\n\n\nlet zzdraft = nowhere ;\n{disk_text}");
+        self.did_change(uri, 2, &[(None, broken)])?;
+        self.position_request("textDocument/definition", uri, 0, 0)?;
         self.did_close(uri)?;
         // a request forces the refresh that follows the close
         self.position_request("textDocument/definition", uri, 0, 0)?;
